@@ -195,7 +195,15 @@ impl Method for PhoneticMethod {
                 return Suggestion::empty();
             }
 
-            self.create_suggestion(data, config)
+            let suggestion = self.create_suggestion(data, config);
+
+            // Nothing visible is left of the word (e.g. only an escape character),
+            // so this empty suggestion also ends the input session.
+            if suggestion.is_empty() {
+                self.buffer.clear();
+            }
+
+            suggestion
         } else {
             Suggestion::empty()
         }
